@@ -79,6 +79,7 @@ func (e *Env) Tick(t uint32) {
 	e.T.Lock()
 	glow.SetCurrentTimeslot(t)
 	e.clock = t
+	e.T.LastTick = int(t)
 	e.T.EmitLocked(J{"a": "Tick", "t": int(t)})
 	e.T.Unlock()
 }
@@ -595,4 +596,22 @@ func (e *Env) QueryStats(param string, tso int64, neg bool) int {
 	}
 	e.T.Emit(j)
 	return st
+}
+
+// SyncClockFromTrace sets the manual clock to the last Tick of a trace that
+// another process wrote (no event is emitted: the Tick is already there).
+func (e *Env) SyncClockFromTrace(t *Trace) {
+	glow.SetCurrentTimeslot(uint32(t.LastTick))
+	e.clock = uint32(t.LastTick)
+}
+
+// LoadServerKey learns the server's own key pair from a server directory.
+func (e *Env) LoadServerKey(dir string) {
+	if b, err := os.ReadFile(filepath.Join(dir, "server.keys")); err == nil && len(b) == 96 {
+		var pub glow.PublicKey
+		var priv glow.PrivateKey
+		copy(pub[:], b[:32])
+		copy(priv[:], b[32:])
+		e.KR.Add("srv", pub, priv)
+	}
 }
